@@ -16,7 +16,8 @@ import (
 type CallSpec struct {
 	Form     string `json:"form"`   // ctx | go | call
 	Cancel   string `json:"cancel"` // never | cancel | deadline   (ctx only)
-	Resp     string `json:"resp"`   // before | late | never | end
+	Resp     string `json:"resp"`   // before | late | never | end | racing (response delivered, cancel while it is being decoded)
+	RaceUS   int    `json:"race_us,omitempty"`
 	ReplyLen int    `json:"reply_len"`
 	Salt     uint32 `json:"salt"`
 	BufCap   int    `json:"buf_cap"` // -1: no context buffer
@@ -25,9 +26,24 @@ type CallSpec struct {
 
 // Case is a set of calls sharing one connection to a scripted server.
 type Case struct {
-	Enc      string     `json:"enc"`
-	DirectIO bool       `json:"direct_io"`
-	Calls    []CallSpec `json:"calls"`
+	Enc           string     `json:"enc"`
+	DirectIO      bool       `json:"direct_io"`
+	Calls         []CallSpec `json:"calls"`
+	DecodeDelayUS int        `json:"decode_delay_us,omitempty"` // the client's body codec takes this long to decode a reply
+	FollowUps     int        `json:"follow_ups,omitempty"`      // blocking calls issued right after the racing cancellations
+}
+
+// slowCodec is the bytes codec with a slow Unmarshal (a large or expensive reply).
+type slowCodec struct {
+	rpc.BYTESCodec
+	delay time.Duration
+}
+
+func (c *slowCodec) Unmarshal(data []byte, v interface{}) error {
+	if c.delay > 0 {
+		time.Sleep(c.delay)
+	}
+	return c.BYTESCodec.Unmarshal(data, v)
 }
 
 func gen(t *rapid.T) Case {
@@ -43,7 +59,11 @@ func gen(t *rapid.T) Case {
 		s.Salt = rapid.Uint32().Draw(t, "salt")
 		if s.Form == "ctx" {
 			s.Cancel = rapid.SampledFrom([]string{"never", "cancel", "cancel", "deadline"}).Draw(t, "cancel")
-			s.Resp = rapid.SampledFrom([]string{"before", "late", "late", "never", "end"}).Draw(t, "resp")
+			s.Resp = rapid.SampledFrom([]string{"before", "late", "late", "never", "end", "racing"}).Draw(t, "resp")
+			if s.Resp == "racing" {
+				s.Cancel = "cancel"
+				s.RaceUS = rapid.SampledFrom([]int{0, 100, 500, 1500}).Draw(t, "race_us")
+			}
 			if rapid.IntRange(0, 2).Draw(t, "with_buf") > 0 {
 				k := rapid.IntRange(0, 5).Draw(t, "buf_class")
 				switch k {
@@ -70,6 +90,8 @@ func gen(t *rapid.T) Case {
 		}
 		c.Calls = append(c.Calls, s)
 	}
+	c.DecodeDelayUS = rapid.SampledFrom([]int{0, 0, 1000, 3000}).Draw(t, "decode_delay_us")
+	c.FollowUps = rapid.IntRange(0, 3).Draw(t, "follow_ups")
 	return c
 }
 
@@ -125,13 +147,20 @@ func run(c Case) kit.Outcome {
 		}
 		switch s.Resp {
 		case "before", "late", "never", "end":
+		case "racing":
+			if s.Form != "ctx" || s.Cancel != "cancel" || s.RaceUS < 0 || s.RaceUS > 100000 {
+				return kit.Outcome{Invalid: true}
+			}
 		default:
 			return kit.Outcome{Invalid: true}
 		}
 	}
+	if c.DecodeDelayUS < 0 || c.DecodeDelayUS > 100000 || c.FollowUps < 0 || c.FollowUps > 16 {
+		return kit.Outcome{Invalid: true}
+	}
 	link := kit.NewFrameLink()
 	srv := kit.NewScriptServer(link, c.Enc)
-	conn := kit.NewLinkConn(link, c.Enc)
+	conn := rpc.NewConnWithCodec(rpc.NewClientCodec(&slowCodec{delay: time.Duration(c.DecodeDelayUS) * time.Microsecond}, kit.HeaderEncoder(c.Enc), link.C, 0))
 	conn.SetDirectIO(c.DirectIO)
 	defer conn.Close()
 	var hist []string
@@ -247,9 +276,57 @@ func run(c Case) kit.Outcome {
 			}
 		}
 	}
+	// phase 1b: responses racing their call's cancellation (delivered, then cancelled while the
+	// reply is being decoded), immediately followed by fresh blocking calls
+	racing := 0
+	for _, l := range calls {
+		if l.spec.Resp != "racing" {
+			continue
+		}
+		racing++
+		respond(l, "phase1b(racing)")
+		if l.spec.RaceUS > 0 {
+			time.Sleep(time.Duration(l.spec.RaceUS) * time.Microsecond)
+		}
+		l.cancelAt = time.Now()
+		l.cancel()
+		if !await(l, prompt) {
+			return fail(timing("cancel-not-prompt", "CallWithContext %d did not return within %v although both its response was delivered and its context cancelled", l.id, prompt))
+		}
+		for k := 0; k < c.FollowUps; k++ {
+			fid := uint64(1000 + int(l.id)*20 + k)
+			fargs := kit.MakePayload(fid, kit.DirEcho, 5, 24)
+			fwant := make([]byte, 33)
+			kit.FillBytes(fwant, fid, 5)
+			freply := []byte("sentinel")
+			nreq := len(srv.Requests())
+			fc := make(chan error, 1)
+			go func() { fc <- conn.Call("S.Echo", &fargs, &freply) }()
+			if !srv.WaitRequests(nreq+1, bound) {
+				return fail(kit.Undecided("follow-up request did not reach the scripted server"))
+			}
+			reqs := srv.Requests()
+			// answer a little later, so that a premature completion is visible
+			time.Sleep(time.Duration(c.DecodeDelayUS+300) * time.Microsecond)
+			select {
+			case err := <-fc:
+				return fail(kit.Fail("sibling-completed", "a blocking call started right after CallWithContext %d was cancelled (its response was being decoded) returned (%v, reply %s) before its own response was sent", l.id, err, kit.Brief(freply)))
+			default:
+			}
+			srv.Respond(kit.ResHeader{Seq: reqs[len(reqs)-1].Seq, Reply: fwant})
+			select {
+			case err := <-fc:
+				if err != nil || string(freply) != string(fwant) {
+					return fail(kit.Fail("wrong-reply", "a blocking call started right after a cancelled CallWithContext returned (%v) with reply %s instead of its own", err, kit.Brief(freply)))
+				}
+			case <-time.After(bound):
+				return fail(timing("answered-not-returned", "a follow-up call did not return within %v although its response was delivered", bound))
+			}
+		}
+	}
 	// phase 2: cancellations / deadlines
 	for _, l := range calls {
-		if l.spec.Form != "ctx" || l.spec.Cancel == "never" {
+		if l.spec.Form != "ctx" || l.spec.Cancel == "never" || l.spec.Resp == "racing" {
 			continue
 		}
 		if l.spec.Cancel == "cancel" {
@@ -265,7 +342,7 @@ func run(c Case) kit.Outcome {
 		}
 	}
 	for _, l := range calls {
-		if l.spec.Form == "ctx" && l.spec.Cancel != "never" && l.spec.Resp != "before" {
+		if l.spec.Form == "ctx" && l.spec.Cancel != "never" && l.spec.Resp != "before" && l.spec.Resp != "racing" {
 			if !await(l, prompt) {
 				return fail(timing("cancel-not-prompt", "CallWithContext %d did not return within %v of its context being done (server never answered)", l.id, prompt))
 			}
@@ -389,6 +466,10 @@ func run(c Case) kit.Outcome {
 	}
 	if lateCount > 0 {
 		out.Classes = append(out.Classes, "late-response")
+	}
+	if racing > 0 && c.DecodeDelayUS > 0 && c.FollowUps > 0 {
+		out.Nontrivial = true
+		out.Classes = append(out.Classes, "cancel-during-decode-with-follow-ups")
 	}
 	if c.DirectIO {
 		out.Classes = append(out.Classes, "direct-io")
